@@ -374,9 +374,94 @@ def canon(box: dict[str, Any]) -> Any:
     return (tuple(box["rows"]), tuple(box["st"]["wire"]), box["status"], box.get("ended"), box.get("cancelled"))
 
 
+class EchoModel:
+    """model ECU for the lifecycle scenarios: answers everything positively"""
+
+    def respond(self, session: int, req: bytes) -> tuple[bytes | None, int]:
+        if req[0] == 0x3E:
+            return (None if req[1] & 0x80 else b"\x7e\x00"), session
+        if req[0] == 0x10:
+            return bytes([0x50, req[1] & 0x7F, 0, 0x32, 1, 0xF4]), req[1] & 0x7F
+        if req[0] == 0x22:
+            return bytes([0x62]) + req[1:3] + b"\xaa", session
+        return bytes([0x7F, req[0], 0x11]), session
+
+
+def run_lifecycle(item: dict[str, Any], res: Result) -> None:
+    """Full UDSScanner lifecycle (real setup/main/teardown, real DBHandler behind the shim): nothing is recorded while
+    implicit logging is switched off - also when it was switched off before setup() - and everything else is."""
+    import sqlite3
+
+    from vf.checks import scan_common
+
+    if "ProbeScanner" not in scan_common.G:
+        scan_common.worker_init()
+        from gallia.command import UDSScanner
+        from gallia.command.uds import UDSScannerConfig
+
+        class ProbeScanner(UDSScanner):  # type: ignore[misc]
+            CONFIG_TYPE = UDSScannerConfig
+            SHORT_HELP = "probe"
+            PLAN: dict[str, Any] = {}
+
+            def __init__(self, config: Any) -> None:
+                super().__init__(config)
+                if not self.PLAN["initial"]:
+                    self.implicit_logging = False  # as sa_dump_seeds does
+
+            async def main(self) -> None:
+                for step in self.PLAN["main"]:
+                    if step[0] == "implicit":
+                        self.implicit_logging = step[1]
+                    else:
+                        await self.ecu.read_data_by_identifier(step[1])
+
+        scan_common.G["ProbeScanner"] = ProbeScanner
+        scan_common.G["UDSScannerConfig"] = UDSScannerConfig
+    scanner_cls = scan_common.G["ProbeScanner"]
+    scanner_cls.PLAN = {"initial": item["initial"], "main": item["main"]}
+    kw = {"properties": item["properties"], "ping": item["ping"], "tester_present": False}
+    box = scan_common.run_scanner("ProbeScanner", "UDSScannerConfig", kw, EchoModel(), db=True)
+    res.count("executions")
+    res.count("lifecycle_runs")
+    rp = {"item": item}
+    if box["status"] != "done" or box.get("exit") != 0:
+        res.violate("C11|lifecycle|run-failed", f"scanner run ended with status {box['status']} exit {box.get('exit')} exc {box.get('exc')} [{item}]", rp)
+        return
+    con = sqlite3.connect(box["db_path"])
+    try:
+        rows = [r[0] for r in con.execute("select request_pdu from scan_result order by id").fetchall()]
+    finally:
+        con.close()
+    # expectation: traffic of main while the flag is on; setup/teardown traffic (ping, ...) iff the flag was on from the start
+    wire = [r.hex() for _s, r in box["log"]]
+    on = item["initial"]
+    main_reqs = []
+    for step in item["main"]:
+        if step[0] == "implicit":
+            on = step[1]
+        else:
+            main_reqs.append((bytes([0x22, step[1] >> 8, step[1] & 0xFF]).hex(), on))
+    n_main = len(main_reqs)
+    first_main = wire.index(main_reqs[0][0]) if main_reqs else len(wire)
+    pre = wire[:first_main]
+    post = wire[first_main + n_main :]
+    want = (pre if item["initial"] else []) + [q for q, o in main_reqs if o] + (post if on else [])
+    res.count("rows_checked", len(rows))
+    res.seen("states", ("lifecycle", repr(item), tuple(rows)))
+    if rows != want:
+        extra = [r for r in rows if r not in want]
+        kind = "recorded-while-off" if extra else "missing-rows"
+        phase = "setup" if extra and extra[0] in pre and not item["initial"] else "main"
+        res.violate(f"C11|lifecycle|{kind}|phase={phase}", f"scan_result holds {rows}, expected {want} (wire {wire}) [{item}]", rp)
+
+
 def run_item(work: tuple[Any, ...]) -> Result:
     item, bound, cap = work
     res = Result()
+    if item.get("lifecycle"):
+        run_lifecycle(item, res)
+        return res
     box: dict[str, Any] = {}
 
     def scenario(run: Run) -> None:
@@ -493,6 +578,15 @@ def items(tier: str, seed: int) -> list[Any]:
             out.append(({"steps": steps}, 1 if n <= 2 else 0, cap))
             if n <= 2 or (not quick and n == 3):
                 out.append(({"steps": steps, "cancel": True}, bound, cap))
+    # full scanner lifecycle with the flag set before setup()
+    for initial, props, ping in itertools.product((True, False), repeat=3):
+        for main in (
+            [("req", 0x1234)],
+            [("req", 0x1234), ("implicit", True), ("req", 0x1235)],
+            [("implicit", True), ("req", 0x1234), ("implicit", False), ("req", 0x1235)],
+            [("implicit", False), ("req", 0x1234), ("req", 0x1235), ("implicit", True), ("req", 0x1236)],
+        ):
+            out.append(({"lifecycle": True, "initial": initial, "properties": props, "ping": ping, "main": main, "steps": []}, 0, cap))
     # implicit logging toggles, failing run
     for seq in itertools.product(["dsc2", "read", "timeout", "mismatch"], repeat=2):
         a, b = seq
@@ -506,6 +600,11 @@ def items(tier: str, seed: int) -> list[Any]:
 
 def replay(doc: dict[str, Any]) -> Result:
     item = doc["item"]
+    if item.get("lifecycle"):
+        item["main"] = [tuple(x) for x in item["main"]]
+        res = Result()
+        run_lifecycle(item, res)
+        return res
     item["steps"] = [tuple(tuple(x) if isinstance(x, list) else x for x in s) for s in item["steps"]]
     res = Result()
     box: dict[str, Any] = {}
@@ -525,7 +624,8 @@ def replay(doc: dict[str, Any]) -> Result:
 def finish(merged: Result, tier: str) -> dict[str, Any]:
     c = merged.counters
     shutil.rmtree(TMP, ignore_errors=True)
-    for k in ("execs_with_cancel", "execs_cancelled_mid_exchange", "rows_checked"):
+    shutil.rmtree(f"/dev/shm/vf-scan-{os.getpid()}", ignore_errors=True)
+    for k in ("execs_with_cancel", "execs_cancelled_mid_exchange", "rows_checked", "lifecycle_runs"):
         if not c.get(k):
             raise Broken(f"vacuous: {k} == 0")
     capped = c.get("capped_items", 0)
